@@ -32,7 +32,7 @@ Ltac RUNF t := let r := eval lazy -[Rplus Rmult Rminus Rdiv Rinv Ropp Rmax Rmin 
 Ltac RUNR t := let r := eval lazy -[Rplus Rmult Rminus Rdiv Rinv Ropp Rmax Rmin Rlt Rle Rgt Rge ln exp sqrt log10 IZR dec Rpower pow PI DBL_MAX not Z.of_nat repeat zrange Z.to_nat acc lvals sumexp_v length] in t in change t with r.
 Ltac STEP :=
   rewrite run_stmts_cons;
-  match goal with |- context [seq_out (exec_stmt ?t ?a ?es ?b ?c ?d ?e ?f) _] => RUNF (exec_stmt t a es b c d e f) end;
+  match goal with |- context [seq_out (exec_stmt ?t ?rm ?a ?es ?b ?c ?d ?e ?f) _] => RUNF (exec_stmt t rm a es b c d e f) end;
   cbn [seq_out bind fst snd].
 
 Definition envk (N : nat) (s : R) (l : nat -> R) (j : nat) : env :=
